@@ -120,7 +120,7 @@ def find_scopes(src, scope):
 FN_RE = r'^[ \t]*(?:#\[[^\]]*\][ \t]*\n[ \t]*)*(?:pub(?:\([a-z:]+\))?[ \t]+)?(?:const[ \t]+)?(?:unsafe[ \t]+)?fn[ \t]+%s\b'
 
 
-def extract_fn(src, name, scope=None, nth=1):
+def extract_fn(src, name, scope=None, nth=None):
     """Return (text, start_index, end_index) of fn `name` (signature..closing brace).
 
     With `scope`, the function is searched inside every block that starts with that text and must be
@@ -162,7 +162,11 @@ def extract_fn(src, name, scope=None, nth=1):
                 continue
             end = match_close(src, ob) + 1
             hits.append((start, end))
-    if len(hits) < nth or (nth == 1 and len(hits) != 1):
+    if nth is None:
+        if len(hits) != 1:
+            raise AnchorLost('fn %s in scope %r: %d matches' % (name, scope, len(hits)))
+        nth = 1
+    if len(hits) < nth:
         raise AnchorLost('fn %s in scope %r: %d matches' % (name, scope, len(hits)))
     s, e = hits[nth - 1]
     return src[s:e], s, e
